@@ -349,3 +349,64 @@ def gen_group_swap_rules(rng, letters, cellvals):
         "nofor context @%s@%s ?" % (rng.choice(cs), "-".join(pick(cs, 8))), "nofor pass2 [%%ss]@%s ?" % "-".join(pick(cs, 8)),
     ]
     return lines + rng.sample(pool, rng.range(3, 9))
+
+
+def gen_emphasis_table(rng):
+    """a small table with capital letters (base rules), capital and emphasis indicators in random combinations (letter, word,
+    phrase with before/after end, length limits, mode characters), a few contractions and numbers; for the memory, length and
+    position streams (no model side).  Returns (text, alphabet)."""
+    d = lambda: dots_text(rng.range(1, 63))
+    seq = lambda: "-".join(dots_text(rng.range(1, 63)) for _ in range(rng.range(1, 3)))
+    low = "abcdefg"[: rng.range(3, 7)]
+    lines = ["space \\s 0", "punctuation . 256", "punctuation - 36", "punctuation , 2"]
+    lines += ["lowercase %s %s" % (c, d()) for c in low]
+    lines += ["base uppercase %s %s" % (c.upper(), c) for c in low]
+    lines += ["digit %d %s" % (k, d()) for k in (1, 2)] + ["numsign 3456"]
+    if rng.chance(0.8):
+        lines.append("capsletter %s" % seq())
+    if rng.chance(0.7):
+        lines.append("begcapsword %s" % seq())
+        if rng.chance(0.6):
+            lines.append("endcapsword %s" % seq())
+    if rng.chance(0.5):
+        lines.append("begcapsphrase %s" % seq())
+        lines.append("endcapsphrase %s %s" % (rng.choice(["before", "after"]), seq()))
+        if rng.chance(0.6):
+            lines.append("lencapsphrase %d" % rng.range(1, 4))
+    if rng.chance(0.3):
+        lines.append("capsmodechars -")
+    # the first three classes must be italic, underline, bold in that order
+    classes = ["italic", "underline", "bold", "script", "trans1"][: rng.range(1, 5)]
+    for cl in classes:
+        lines.append("emphclass %s" % cl)
+    for cl in classes:
+        if rng.chance(0.7):
+            lines.append("emphletter %s %s" % (cl, seq()))
+        k = rng.below(3)
+        if k == 0:
+            lines.append("begemph %s %s" % (cl, seq()))
+            lines.append("endemph %s %s" % (cl, seq()))
+        else:
+            lines.append("begemphword %s %s" % (cl, seq()))
+            if rng.chance(0.7):
+                lines.append("endemphword %s %s" % (cl, seq()))
+            if k == 2:
+                lines.append("begemphphrase %s %s" % (cl, seq()))
+                lines.append("endemphphrase %s %s %s" % (cl, rng.choice(["before", "after"]), seq()))
+                if rng.chance(0.6):
+                    lines.append("lenemphphrase %s %d" % (cl, rng.range(1, 4)))
+        if rng.chance(0.2):
+            lines.append("emphmodechars %s -" % cl)
+    if rng.chance(0.5):
+        lines.append("letsign 56")
+    if rng.chance(0.4):
+        lines.append("nocontractsign 6-56")
+    for _ in range(rng.range(1, 5)):
+        w = "".join(rng.choice(low) for _ in range(rng.range(2, 3)))
+        lines.append("%s %s %s" % (rng.choice(["always", "always", "word", "begword", "endword", "contraction", "largesign", "joinword", "lowword"]), w, d()))
+    if rng.chance(0.3):
+        lines.append("noback correct \"%s\" \"%s%s\"" % (low[0], low[0], low[1]))
+    if rng.chance(0.3):
+        lines.append("noback pass2 @%s @%s-%s" % (d(), d(), d()))
+    alphabet = [ord(c) for c in low] * 3 + [ord(c.upper()) for c in low] * 2 + [32, 32, 32, 46, 45, 44, 49, 50]
+    return "\n".join(lines) + "\n", alphabet
